@@ -594,3 +594,6 @@ def run(ctx):
     r11_5(ctx)
     r11_6(ctx)
     r11_7(ctx)
+    # R11.8 = R04.4: the Dirichlet index sets that every smoothing-set strategy subtracts are reset by each refinement
+    import rules.C04 as c04
+    ctx.shared(c04.r04_4, 'R04.4', 'R11.8')
